@@ -472,8 +472,27 @@ func failedEarlierRun(ps *progSet) {
 	}
 }
 
+// chattyInput: an input whose type has methods of its own besides Get (a host's point type may implement several interfaces).
+type chattyInput struct{ *input.Point }
+
+func (chattyInput) ExitSignal() bool      { return false }
+func (chattyInput) Done() <-chan struct{} { return nil }
+func (chattyInput) String() string        { return "chatty input" }
+
+func usesOnlyHarnessFunctions(ps *progSet) bool {
+	for _, src := range ps.Scripts {
+		for _, n := range identRe.FindAllString(src, -1) {
+			if _, fn := funcs.FuncsMap[n]; fn && n != "use" && n != "exit" && n != "len" {
+				return false
+			}
+		}
+	}
+	return true
+}
+
 var hostReused = &input.Point{}
 var hostRuns int
+var runsDone int
 
 func runOnce(ps *progSet, fireAt, budget int) runResult {
 	o := &runObs{fireAt: fireAt, budget: budget}
@@ -543,7 +562,20 @@ func runOnce(ps *progSet, fireAt, budget int) runResult {
 				defer func() { time.Local = old }()
 			}
 		}
-		res.err = ok[ps.Main].Run(pt, signalFor(o, fireAt))
+		runsDone++
+		// the input is whatever the host hands in: for programs that do not touch the point through the real builtins (those insist on a
+		// *input.Point), every third cancelled run gets an input object whose Go type carries more methods than Input asks for - among
+		// them one named like the signal's. The host's signal is the signal.
+		if fireAt > 0 && fireAt < 1<<20 && runsDone%3 == 0 && usesOnlyHarnessFunctions(ps) {
+			res.err = ok[ps.Main].Run(chattyInput{pt}, signalFor(o, fireAt))
+			return
+		}
+		if runsDone%2 == 0 {
+			// run options are the host's business: a private map handed to the run changes nothing a script can see
+			res.err = ok[ps.Main].Run(pt, signalFor(o, fireAt), plruntime.WithPrivate(map[string]any{"host": "data", "n": runsDone}))
+		} else {
+			res.err = ok[ps.Main].Run(pt, signalFor(o, fireAt))
+		}
 	}()
 	select {
 	case <-done:
